@@ -25,30 +25,34 @@
                                     the Examples and on every generated case by
                                     harness/c08.py (judge). *)
 From Coq Require Import List Ascii String ZArith Bool.
-From YP Require Import Outcome PyStr Generated PathParser PathPrinter C08Spec RtStep RtSeg RtRender RtTables.
+From YP Require Import Outcome PyStr Generated PathParser PathPrinter C08Spec RtStep RtSeg RtInt RtRender RtTables.
 Import ListNotations.
 Open Scope string_scope.
 
 (* ---- clause 1: writing then parsing gives back the segments ---- *)
+(* Every segment kind, both notations, any length, any text.  The only guard
+   is [wf]; its clauses name what the notation cannot express, plus the one
+   listed finding F21 ([quote_wrapped], hence "_partial"). *)
 Theorem C08_parse_render_partial :
   forall (sp : sep) (l : list sseg),
-    wf sp l = true -> forallb idx_guard l = true -> forallb not_search l = true ->
-    parse (Forced sp) true (render_ref sp l) = Ok (segs_of l).
-Proof. exact parse_render_nosearch. Qed.
+    wf sp l = true -> parse (Forced sp) true (render_ref sp l) = Ok (segs_of l).
+Proof. exact parse_render. Qed.
 Print Assumptions C08_parse_render_partial.
 
+(* through separator inference; "dot text must not start with /" is the
+   property's own exclusion *)
 Theorem C08_parse_render_auto_partial :
   forall (sp : sep) (l : list sseg),
-    wf sp l = true -> forallb idx_guard l = true -> forallb not_search l = true ->
+    wf sp l = true ->
     (sp = Dot -> first_not_in ["/"%char] (render_ref sp l) = true) ->
     parse Auto true (render_ref sp l) = Ok (segs_of l).
-Proof. exact parse_render_nosearch_auto. Qed.
+Proof. exact parse_render_auto. Qed.
 Print Assumptions C08_parse_render_auto_partial.
 
-(* the full statement (every kind, no index guard) *)
-Definition C08_parse_render_statement : Prop :=
-  forall (sp : sep) (l : list sseg),
-    wf sp l = true -> parse (Forced sp) true (render_ref sp l) = Ok (segs_of l).
+(* int(str(n)) = n for every integer: the element index needs no guard *)
+Theorem C08_int_of_str : forall n : Z, py_int (str_of_Z n) = Some n.
+Proof. exact py_int_str_of_Z. Qed.
+Print Assumptions C08_int_of_str.
 
 (* ---- side conditions over the tables regenerated from the Python source ---- *)
 Theorem C08_section_syms_ok : section_syms_ok = true.
@@ -123,13 +127,11 @@ Definition sample_path : list sseg :=
 
 Example C08_parse_render_nonvacuous :
   wf Dot sample_path = true /\ wf Slash sample_path = true
-  /\ forallb idx_guard sample_path = true /\ forallb not_search sample_path = true
   /\ render_ref Dot sample_path
      = "hash.dotted\.child\ key[-12][1:2][&anchor_1].*.**[!has_child(a\ b,c)]((a.b)+(c))-(x/y).'\'quoted\' \[key\]'".
 Proof. vm_compute. repeat split; reflexivity. Qed.
 
-(* SEARCH segments: the statement holds on these instances (a test, by
-   computation; the general proof is the missing fragment) *)
+(* SEARCH segments with every escapable character in attribute and term *)
 Definition sample_searches : list sseg :=
   [ ((Some TKey, AStr "x"), plain_style);
     ((Some TSearch, ASearch true MEquals "full name" "Some User's Name"), mkstyle (Some DQ) false false "/"%char);
@@ -137,10 +139,11 @@ Definition sample_searches : list sseg :=
     ((Some TSearch, ASearch false MRegex "." "^a/b|c$"), mkstyle None false false "#"%char);
     ((Some TSearch, ASearch false MStartsWith "enc" "ENC["), plain_style) ].
 
-Example C08_parse_render_search_instances :
-  wf Dot sample_searches = true
-  /\ parse (Forced Dot) true (render_ref Dot sample_searches) = Ok (segs_of sample_searches)
-  /\ parse (Forced Slash) true (render_ref Slash sample_searches) = Ok (segs_of sample_searches).
+Example C08_parse_render_search_nonvacuous :
+  wf Dot sample_searches = true /\ wf Slash sample_searches = true
+  /\ wf Dot [((Some TSearch, ASearch true MContains every_escapable every_escapable), plain_style)] = true
+  /\ render_ref Dot sample_searches
+     = "x[full\ name!=""Some User\'s Name""][!lvl>=5\ \%][.=~#^a/b|c$#][enc^ENC\[]".
 Proof. vm_compute. repeat split; reflexivity. Qed.
 
 (* clauses 2-4 on instances (tests, by computation) *)
